@@ -422,8 +422,19 @@ class Spec:
                 nonterm.productions.append(prod)
                 self._productions.append(prod)
 
+        # Canonical order, independent of dict/set iteration order (keyword
+        # token classes are generated from frozensets, whose iteration order
+        # depends on PYTHONHASHSEED): start production first, the rest sorted.
+        rest = sorted(
+            self._productions[1:],
+            key=lambda p: (p.lhs.name, tuple(s.name for s in p.rhs),
+                           p.qualified))
+        self._productions = [self._startProd] + rest
         for i, p in enumerate(self._productions):
             p.seq = i
+        self._tokens = dict(sorted(self._tokens.items()))
+        self._nonterms = dict(sorted(self._nonterms.items()))
+        self._precedences = dict(sorted(self._precedences.items()))
 
     def _default_prec(self, nonterm, rhs):
         mode = self._default_prod_prec
@@ -527,9 +538,20 @@ class Spec:
         return h.hexdigest()
 
     def _build(self, use_cache):
-        g = self._grammar()
-        key = self._cache_key(g)
-        self.cache_key = key
+        """Compute the cache key now; tables are materialised lazily (the
+        stand-in `edb._edgeql_parser` keeps a second-level cache of the final
+        driver tables keyed on `cache_key`, so often they are never needed)."""
+        self._g = self._grammar()
+        self.cache_key = self._cache_key(self._g)
+        self._use_cache = use_cache
+        self._tables_ready = False
+
+    def _ensure_tables(self):
+        if self._tables_ready:
+            return
+        g = self._g
+        key = self.cache_key
+        use_cache = self._use_cache
         path = CACHE_DIR / f'lrtables-{key}.json'
         data = None
         if use_cache and path.exists():
@@ -557,9 +579,9 @@ class Spec:
                 tmp = path.with_suffix(f'.tmp{os.getpid()}')
                 tmp.write_text(json.dumps(data))
                 os.replace(tmp, path)
-        self._stats = data['stats']
-        self._pure_lr = data['pure_lr']
-        self._conflicts = data['conflicts']
+        self._stats_v = data['stats']
+        self._pure_lr_v = data['pure_lr']
+        self._conflicts_v = data['conflicts']
         prods = self._productions
         toks = self._tokens
         nts = self._nonterms
@@ -577,9 +599,35 @@ class Spec:
                 r = reduce_cache[a[1]] = ReduceAction(prods[a[1]])
             return r
 
-        self._action = [
+        self._action_v = [
             {toks[t]: [mk(a) for a in acts] for t, acts in row.items()}
             for row in data['action']]
-        self._goto = [
+        self._goto_v = [
             {nts[n]: s for n, s in row.items()} for row in data['goto']]
         self._startState = 0
+        self._tables_ready = True
+
+    @property
+    def _action(self):
+        self._ensure_tables()
+        return self._action_v
+
+    @property
+    def _goto(self):
+        self._ensure_tables()
+        return self._goto_v
+
+    @property
+    def _pure_lr(self):
+        self._ensure_tables()
+        return self._pure_lr_v
+
+    @property
+    def _stats(self):
+        self._ensure_tables()
+        return self._stats_v
+
+    @property
+    def _conflicts(self):
+        self._ensure_tables()
+        return self._conflicts_v
